@@ -149,6 +149,11 @@ func checkC18(c CaseC18) error {
 		}
 		ref[len(rtBytes)+i] = sgen.JS(sgen.Normalize(s))
 	}
+	// what each static call returns alone, by the reference model
+	staticWant := make([]sgen.NStatic, len(c.Static))
+	for i, f := range c.Static {
+		staticWant[i] = sgen.Expect(f, sgen.Options{InheritWheelchairBoarding: c.Inherit}).SortedServices()
+	}
 	// phase 2: every goroutine reads, hashes and walks the results of the others
 	errs := make([]error, len(c.Plan))
 	start2 := make(chan struct{})
@@ -202,6 +207,14 @@ func checkC18(c CaseC18) error {
 							return
 						}
 					}
+					if res.st != nil {
+						if si := res.input - len(rtBytes); si >= 0 && si < len(c.Static) {
+							if d := sgen.Diff(sgen.Normalize(res.st).SortedServices(), staticWant[si]); d != "" {
+								errs[g] = vt.FailSig("concurrent-differs-from-model", "static input %d parsed concurrently (by goroutine %d) is not what the call returns alone: %s", res.input, other, d)
+								return
+							}
+						}
+					}
 					if js != ref[res.input] {
 						errs[g] = vt.FailSig("concurrent-differs", "extension %+v: input %d parsed concurrently (by goroutine %d) differs from the sequential parse: %s", c.Ext, res.input, other, rgen.FirstDiff(js, ref[res.input]))
 						return
@@ -243,11 +256,19 @@ func genC18(t *rapid.T) (CaseC18, bool) {
 		c.RT = append(c.RT, m)
 		c.Model = append(c.Model, modelOK)
 	}
-	nSt := rapid.IntRange(0, 2).Draw(t, "nStatic")
+	nSt := rapid.IntRange(0, 3).Draw(t, "nStatic")
+	staticHeavy := rapid.IntRange(0, 3).Draw(t, "staticHeavy") == 0 // mostly archives, in different agency time zones
+	if staticHeavy {
+		nSt = rapid.IntRange(2, 3).Draw(t, "nStaticHeavy")
+	}
 	for i := 0; i < nSt; i++ {
 		o := sgen.DefaultGenOpts()
 		o.MaxStops, o.MaxTrips, o.MaxStopTimes = 5, 3, 3
+		o.MinServices = 1
 		f, _ := sgen.GenFeed(t, o)
+		if staticHeavy && len(f.Agencies) > 0 {
+			f.Agencies[0].TZ = []string{"America/New_York", "America/Los_Angeles", "Asia/Tokyo"}[i%3]
+		}
 		c.Static = append(c.Static, f)
 	}
 	// rejected inputs
@@ -302,7 +323,11 @@ func genC18(t *rapid.T) (CaseC18, bool) {
 		calls := rapid.IntRange(2, 8).Draw(t, "calls")
 		var plan []int
 		for k := 0; k < calls; k++ {
-			plan = append(plan, rapid.IntRange(0, nIn-1).Draw(t, "input"))
+			in := rapid.IntRange(0, nIn-1).Draw(t, "input")
+			if staticHeavy && rapid.IntRange(0, 3).Draw(t, "staticCall") != 0 {
+				in = len(c.RT) + len(c.BadRT) + rapid.IntRange(0, nSt-1).Draw(t, "staticInput")
+			}
+			plan = append(plan, in)
 		}
 		c.Plan = append(c.Plan, plan)
 	}
